@@ -5,6 +5,7 @@ spec/Pruning.tla (laws PageStatsSound / PageStatsWideningSound for the legacy pa
 ZoneMapSound for zone-map zones, over all zones of <= MaxZone cells and all predicates), spec/Trace_Pruning.tla
 (StatsScanEqualsEval for legacy tables scanned with use_stats(true / false), IndexedScanEqualsEval / SearchSuperset for the
 zone map), harness vh_pruning."""
+import concurrent.futures as cf
 import random
 import time
 
@@ -16,28 +17,31 @@ MACHINE = ["N_Append", "N_Delete", "N_Build", "N_Optimize", "N_Query"]
 
 
 def run(prop, tier, replay):
+    if replay:
+        return P.replay(prop, replay, OWN)
     t0 = time.time()
     out = vlib.Outcome(prop)
     rnd = random.Random(vlib.seed())
     quick = tier == "quick"
+    inv = "TypeOK LawsC29 IndexedScanEqualsFullScan"
     runs = [
-        ("laws-int", dict(kind="int", k=3, mz=3), None, []),
-        ("laws-str6", dict(kind="str", k=6, mz=2 if quick else 3), None, []),
-        ("laws-float", dict(kind="float", k=6, mz=2 if quick else 3), None, []),
-        ("machine-zonemap", dict(mode="zone", itype="zonemap", k=0, mz=1, rz=2, mf=2, mr=3 if quick else 4), None, MACHINE),
-        ("asbuilt-float-nan", dict(kind="float", k=6, mz=2, dev='{"StatsIgnoreNaN"}'), "Laws", []),
-        ("asbuilt-constant-page", dict(kind="int", k=3, mz=2, dev='{"ConstantPageIgnoresNulls"}'), "Laws", []),
+        ("laws-int", dict(kind="int", k=3, mz=3, inv=inv), None, []),
+        ("laws-str6", dict(kind="str", k=6, mz=2 if quick else 3, inv=inv), None, []),
+        ("laws-float", dict(kind="float", k=6, mz=2 if quick else 3, inv=inv), None, []),
+        ("machine-zonemap", dict(mode="zone", itype="zonemap", k=0, mz=1, rz=2, mf=2, mr=3 if quick else 5, inv=inv), None, MACHINE),
+        ("asbuilt-float-nan", dict(kind="float", k=6, mz=2, dev='{"StatsIgnoreNaN"}', inv=inv), "LawsC29", []),
+        ("asbuilt-constant-page", dict(kind="int", k=3, mz=2, dev='{"ConstantPageIgnoresNulls"}', inv=inv), "LawsC29", []),
     ]
-    mc_info, states, trans, problems = P.model_check(prop, runs)
-    for name, text in problems:
-        out.report({"spec": "Pruning", "run": name}, text, {})
-    atoms3 = P.printed(prop, "ATOMS", "AtomList", kind="int", k=3)
-    preds3 = P.printed(prop, "PREDS", "PredList", kind="int", k=3)
-    preds6 = P.printed(prop, "PREDS", "PredList", kind="float", k=6)
-    atoms6 = P.printed(prop, "ATOMS", "AtomList", kind="float", k=6)
-    p3 = preds3 if not quick else rnd.sample(preds3, 110)
-    p6 = preds6 if not quick else rnd.sample(preds6, 110)
-    a6 = atoms6 if not quick else rnd.sample(atoms6, 70)
+    # the model runs go on in the background while the scenarios are generated, executed and validated
+    pool = cf.ThreadPoolExecutor(max_workers=3)
+    mc = pool.submit(P.model_check, prop, runs)
+    g3 = pool.submit(P.printed, prop, "lists3", ["ATOMS", "PREDS"], kind="int", k=3)
+    g6 = pool.submit(P.printed, prop, "lists6", ["ATOMS", "PREDS"], kind="float", k=6)
+    atoms3, preds3 = g3.result()["ATOMS"], g3.result()["PREDS"]
+    atoms6, preds6 = g6.result()["ATOMS"], g6.result()["PREDS"]
+    p3 = preds3 if not quick else rnd.sample(preds3, 60)
+    p6 = preds6 if not quick else rnd.sample(preds6, 60)
+    a6 = atoms6 if not quick else rnd.sample(atoms6, 50)
     g = {("int", 3): [], ("int", 6): [], ("float", 6): []}
     # legacy page statistics: the legacy format stores no nulls for primitives and reads the empty string as NULL,
     # so int / float pages have no NULL cells and string pages no "" (token 0)
@@ -46,8 +50,9 @@ def run(prop, tier, replay):
     s6 = [-1, 1, 2, 3, 4, 5, 6]
     for r in (1, 2, 3):
         g[("int", 3)].append(P.legacy_universe("int32", i3, r, p3, rnd))
-        g[("float", 6)].append(P.legacy_universe("float64", f6, r, p6, rnd, limit=None if (r < 3 or not quick) else 96))
-        g[("int", 6)].append(P.legacy_universe("utf8", s6, r, p6, rnd, limit=None if (r < 3 or not quick) else 96))
+        g[("float", 6)].append(P.legacy_universe("float64", f6, r, p6, rnd, limit=None if (r < 3 or not quick) else 48))
+        if r > 1 or not quick:
+            g[("int", 6)].append(P.legacy_universe("utf8", s6, r, p6, rnd, limit=None if (r < 3 or not quick) else 48))
     g[("float", 6)].append(P.legacy_universe("float32", f6, 2, p6, rnd))
     g[("int", 6)].append(P.legacy_universe("utf8long", s6, 2, p6, rnd))
     if not quick:
@@ -63,13 +68,17 @@ def run(prop, tier, replay):
     c6 = [-1, 0, 1, 2, 3, 4, 5, 6]
     for r in (1, 2, 3):
         g[("int", 3)].append(P.index_universe("int32", c3, r, "zonemap", atoms3, rnd))
-    for r in ((1, 2) if quick else (1, 2, 3)):
+    for r in ((2,) if quick else (1, 2, 3)):
         g[("float", 6)].append(P.index_universe("float32", c6, r, "zonemap", a6, rnd))
     results, build_s = P.run_groups(prop, g)
+    mc_info, states, trans, problems = mc.result()
+    for name, text in problems:
+        out.report({"spec": "Pruning", "run": name}, text, {})
     counts, events, samples, bad_scn, nscn, timing = P.judge(prop, out, results, OWN)
     for key in ("queries", "pushdown", "indexed", "searches", "pruned", "zagree", "nontrivial"):
         if counts.get(key, 0) == 0:
             raise vlib.ToolError(f"vacuous run: no {key} events")
+    sigs = counts.pop("findings_by_signature", {})
     rc = out.finish()
     vlib.write_evidence(prop, tier, "model_checking", {
         "states": states, "transitions": trans, "traces_validated_against_impl": nscn - len(bad_scn),
@@ -83,7 +92,7 @@ def run(prop, tier, replay):
         "exhaustive_parts": "int32 legacy pages: all 84 pages of <= 3 cells over {0..3}; int32 zone-map zones: all 155 zones over {NULL,0..3}; "
                             "predicate lists and float / utf8 pages of 3 cells are sampled in the quick tier",
         "model_runs": mc_info, "event_counts": counts, "events_validated": events, "scenarios": nscn,
-        "scenarios_with_findings": len(bad_scn), "invariants_of_this_property": sorted(OWN),
+        "scenarios_with_findings": len(bad_scn), "findings_by_signature": sigs, "invariants_of_this_property": sorted(OWN),
         "pushdown_scans_observed": counts.get("pushdown", 0),
         "zone_answers_equal_to_transcription": counts.get("zagree", 0), "zone_answers_different": counts.get("zdiffer", 0),
         "harness_build_s": build_s, "timing": timing,
